@@ -23,7 +23,7 @@ static void rec(const char *fn, const unsigned char *in, size_t n, long r) {
 }
 static void run_ini(const unsigned char *in, size_t n) {
     char *s = malloc(n + 1); memcpy(s, in, n); s[n] = 0;
-    vh_where = "ini"; vh_watchdog(3);
+    vh_where = "ini"; vh_watchdog(8);
     qlisttbl_t *t = qconfig_parse_str(NULL, s, '=');
     alarm(0);
     long cnt = t ? (long) t->size(t) : -1;
@@ -40,7 +40,7 @@ static qaconf_option_t OPTS[] = {
 static void run_aconf(const unsigned char *in, size_t n, const char *scratch, int flags) {
     FILE *f = fopen(scratch, "wb"); if (!f) _exit(2);
     fwrite(in, 1, n, f); fclose(f);
-    vh_where = "aconf"; vh_watchdog(3);
+    vh_where = "aconf"; vh_watchdog(8);
     qaconf_t *c = qaconf();
     long r = -9;
     if (c) {
